@@ -61,6 +61,7 @@ type Client struct {
 	invHandlers       map[wamp.ID]InvocationHandler
 	invHandlersQueues map[clientInvocation]chan *wamp.Invocation
 	invHandlersCtxs   map[clientInvocation]context.Context
+	invHandlersFinal  map[clientInvocation]struct{}
 	nameProcID        map[string]wamp.ID
 	invHandlerKill    map[wamp.ID]context.CancelFunc
 	progGate          map[wamp.ID]struct{}
@@ -280,6 +281,7 @@ func NewClient(p wamp.Peer, cfg Config) (*Client, error) {
 		invHandlers:       map[wamp.ID]InvocationHandler{},
 		invHandlersQueues: map[clientInvocation]chan *wamp.Invocation{},
 		invHandlersCtxs:   map[clientInvocation]context.Context{},
+		invHandlersFinal:  map[clientInvocation]struct{}{},
 		nameProcID:        map[string]wamp.ID{},
 		invHandlerKill:    map[wamp.ID]context.CancelFunc{},
 		progGate:          map[wamp.ID]struct{}{},
@@ -1587,6 +1589,7 @@ func (c *Client) cleanupInvHandlersQueue(cliInvocation clientInvocation) {
 	}
 	delete(c.invHandlersQueues, cliInvocation)
 	delete(c.invHandlersCtxs, cliInvocation)
+	delete(c.invHandlersFinal, cliInvocation)
 
 	c.sess.Unlock()
 	// Drain chan in case anyone is blocked.
@@ -1684,6 +1687,19 @@ func (c *Client) runHandleInvocation(msg *wamp.Invocation) {
 	}
 	handlerQueue, queueExists := c.invHandlersQueues[cliInvocation]
 	ctx := c.invHandlersCtxs[cliInvocation]
+	if queueExists {
+		if _, final := c.invHandlersFinal[cliInvocation]; final {
+			// The final (non-progressive) INVOCATION for this request was
+			// already received and is being handled. Nothing more can follow
+			// it, so this is a duplicate. It must not be queued, as nothing
+			// will read it and run() would block.
+			c.sess.Unlock()
+			if c.debug {
+				c.log.Println("Ignoring duplicate Invocation reqID=", reqID)
+			}
+			return
+		}
+	}
 	if !queueExists {
 		if !c.sess.UpdateLastRecvIDLocked(reqID) {
 			c.sess.Unlock()
@@ -1722,9 +1738,17 @@ func (c *Client) runHandleInvocation(msg *wamp.Invocation) {
 	} else {
 		c.sess.UpdateLastRecvIDLocked(reqID)
 	}
+	if isInProgress, _ := msg.Details[wamp.OptProgress].(bool); !isInProgress {
+		c.invHandlersFinal[cliInvocation] = struct{}{}
+	}
 	c.sess.Unlock()
 
-	handlerQueue <- msg
+	select {
+	case handlerQueue <- msg:
+	case <-ctx.Done():
+		// Invocation canceled or timed out while its handler was busy.
+	case <-c.Done():
+	}
 
 	if !queueExists {
 		// Start a goroutine to run the user-defined invocation handler.
